@@ -28,11 +28,16 @@ def validate4 (given : Option P4) (found : P4) : Option P4 :=
   | none => some found
   | some g => if close4 g found then some found else none
 
+/-- the double nearest to `1e-8` and the double nearest to `.01`, exactly (the literals of `_round_shape`; the tie
+theorem `Tie.tie_round_shape` against the translated source fixed these: `1/10^8` and `1/100` are not doubles) -/
+def eps8 : Rat := mkRat 3022314549036573 302231454903657293676544
+def c01 : Rat := mkRat 5764607523034235 576460752303423488
+
 /-- `_round_shape` on one number: keep if within 1e-8 of an integer, else round up when the
 fractional part is >= .01, then `int(round(.))` -/
 def roundDim (x : Rat) : Int :=
-  let x' := if absQ (x - (roundHalfEven x : Rat)) > 1 / 100000000 then
-      (if x - (pyFloor x : Rat) ≥ 1 / 100 then (pyCeil x : Rat) else x) else x
+  let x' := if absQ (x - (roundHalfEven x : Rat)) > eps8 then
+      (if x - (pyFloor x : Rat) ≥ c01 then (pyCeil x : Rat) else x) else x
   roundHalfEven x'
 
 structure Desc where
